@@ -6,13 +6,35 @@
 EXTENDS ColangSM_I, Json, IOUtils
 
 CONSTANTS MaxHist, MaxPick
-VARIABLES S, hist
-vars == <<S, hist>>
-SView == S           \* VIEW: states that differ only in the history are one state
+VARIABLES S, hist,
+          mon       \* ghost: the action life-cycle monitor of C06 (L2), [m |-> action -> "started"|"stopped"|"finished", bad |-> what went wrong]
+vars == <<S, hist, mon>>
+SView == <<[S EXCEPT !.nev = 0], mon>>           \* VIEW: states that differ only in the history / the event counter are one state
 Alphabet == MCP.alphabet           \* sequence of [name, args (seq of <<key, value>>)]
+
+(* ---- L2: one Start per action, Stop only for an action that was started and is neither stopped nor finished ---- *)
+MonOut(m0, T) ==           \* scan the outgoing events of the new state T
+  LET RECURSIVE Go(_, _)
+      Go(m, i) == IF i > Len(T.out) \/ m.bad # "" THEN m
+                  ELSE LET o == T.out[i] IN
+                       IF o.act = 0 THEN Go(m, i + 1)
+                       ELSE IF o.name = "Start" \o T.actions[o.act].name
+                         THEN (IF o.act \in DOMAIN m.m THEN [m EXCEPT !.bad = "second Start for one action"]
+                               ELSE Go([m EXCEPT !.m = (o.act :> "started") @@ @], i + 1))
+                       ELSE IF o.name = "Stop" \o T.actions[o.act].name
+                         THEN (IF o.act \notin DOMAIN m.m THEN [m EXCEPT !.bad = "Stop for an action that was never started"]
+                               ELSE IF m.m[o.act] = "stopped" THEN [m EXCEPT !.bad = "second Stop for one action"]
+                               ELSE IF m.m[o.act] = "finished" THEN [m EXCEPT !.bad = "Stop after the action finished"]
+                               ELSE Go([m EXCEPT !.m[o.act] = "stopped"], i + 1))
+                       ELSE Go(m, i + 1)
+  IN Go(m0, 1)
+MonIn(m0, w, a) ==         \* an external <Action>Finished event
+  IF w = 2 /\ a \in DOMAIN m0.m /\ m0.m[a] # "stopped" THEN [m0 EXCEPT !.m[a] = "finished"] ELSE m0
+MonEmpty == [m |-> <<>>, bad |-> ""]
 
 Init == /\ S = Run(Init0, StartMain, 0)
         /\ hist = <<>>
+        /\ mon = MonOut(MonEmpty, Run(Init0, StartMain, 0))
 (* external events: the program's alphabet, and Started / Finished of every action that was started
    (early, late, twice: also for actions that already finished or were stopped) *)
 StartedActions == {a \in 1..Len(S.actions) : S.actions[a].status \in {"STARTING", "STARTED", "STOPPING", "FINISHED"}}
@@ -20,9 +42,11 @@ Step == /\ Len(hist) < MaxHist
         /\ \/ \E i \in 1..Len(Alphabet) : \E pick \in 0..MaxPick :
                  /\ S' = Run(S, ExtEvent(Alphabet[i].name, Alphabet[i].args), pick)
                  /\ hist' = Append(hist, <<i, pick, 0>>)
+                 /\ mon' = MonOut(mon, S')
            \/ \E a \in StartedActions : \E w \in {1, 2} :
                  /\ S' = Run(S, ActionExtEvent(S, a, IF w = 1 THEN "Started" ELSE "Finished"), 0)
                  /\ hist' = Append(hist, <<-w, 0, a>>)
+                 /\ mon' = MonOut(MonIn(mon, w, a), S')
 Spec == Init /\ [][Step]_vars
 
 (* projection with the same shape as harness/colang2.project_state (what Props2 and the drift check need) *)
@@ -58,4 +82,47 @@ IndexScan == UNION {{<<k, S.flows[k].heads[q].hid, RefEventName(S, k, El(S.flows
 IndexIsScan == {<<S.index[i].k, S.index[i].hid, S.index[i].name>> : i \in 1..Len(S.index)} = IndexScan
                /\ Cardinality({<<S.index[i].k, S.index[i].hid>> : i \in 1..Len(S.index)}) = Len(S.index)
 DoneNoHeads == \A k \in 1..Len(S.flows) : S.flows[k].status \in {"STOPPED", "FINISHED"} => S.flows[k].heads = <<>>
+
+(* ------------------------------------------------------------------ C06 at specification level *)
+RangeS(q) == {q[i] : i \in 1..Len(q)}
+RECURSIVE EffParentS(_, _), ChainS(_, _)
+EffParentS(k, fuel) == LET f == S.flows[k] IN
+  IF f.parent = 0 \/ fuel = 0 THEN 0 ELSE IF S.flows[f.parent].fid # f.fid THEN f.parent ELSE EffParentS(f.parent, fuel - 1)
+ChainS(k, fuel) == LET f == S.flows[k] IN
+  IF f.parent = 0 \/ fuel = 0 THEN {k} ELSE IF S.flows[f.parent].fid # f.fid THEN {k} ELSE {k} \cup ChainS(f.parent, fuel - 1)
+KeptS(k) == \/ k = 1
+            \/ LET ep == EffParentS(k, 50) IN ep # 0 /\ Listening(S.flows[ep])
+            \/ \E j \in 1..Len(S.flows) : Listening(S.flows[j]) /\ j \notin ChainS(k, 50) /\ RangeS(S.flows[j].children) \cap ChainS(k, 50) # {}
+(* L1: every running instance has a listening keeper *)
+L1S == \A k \in 1..Len(S.flows) : ActiveFlow(S.flows[k]) => KeptS(k)
+(* L2: the monitor never saw a second Start, or a Stop for an action not started / already stopped / finished *)
+L2S == mon.bad = ""
+(* L2b: a flow that ends in a macro step sends Stop to each unfinished action it alone owns *)
+FinishedNow == IF hist' # <<>> /\ hist'[Len(hist')][1] = -2 THEN hist'[Len(hist')][3] ELSE 0
+DoneS(f) == f.status \in {"STOPPED", "FINISHED"}
+L2bStep == \A k \in 1..Len(S.flows) :
+   (ActiveFlow(S.flows[k]) /\ DoneS(S'.flows[k])) =>
+      \A a \in RangeS(S.flows[k].actions) :
+         (/\ S.actions[a].status \in {"STARTING", "STARTED"} /\ a # FinishedNow
+          /\ ~\E j \in 1..Len(S'.flows) : ActiveFlow(S'.flows[j]) /\ a \in RangeS(S'.flows[j].actions))
+         => \E i \in 1..Len(S'.out) : S'.out[i].act = a /\ S'.out[i].name = "Stop" \o S.actions[a].name
+L2bS == [][L2bStep]_vars
+(* L2c: an action shared with a running flow that did nothing in this step is not stopped when another sharer ends *)
+L2cStep == \A i \in 1..Len(S'.out) :
+   (S'.out[i].act # 0 /\ S'.out[i].act <= Len(S.actions) /\ S'.out[i].name = "Stop" \o S'.actions[S'.out[i].act].name) =>
+      LET a == S'.out[i].act IN
+      ~\E k \in 1..Len(S.flows) : \E j \in 1..Len(S.flows) :
+           /\ k # j /\ ActiveFlow(S.flows[k]) /\ ActiveFlow(S.flows[j]) /\ a \in RangeS(S.flows[k].actions) /\ a \in RangeS(S.flows[j].actions)
+           /\ DoneS(S'.flows[k]) /\ ActiveFlow(S'.flows[j]) /\ a \in RangeS(S'.flows[j].actions)
+           /\ [q \in 1..Len(S'.flows[j].heads) |-> <<S'.flows[j].heads[q].hid, S'.flows[j].heads[q].pos, S'.flows[j].heads[q].status>>]
+              = [q \in 1..Len(S.flows[j].heads) |-> <<S.flows[j].heads[q].hid, S.flows[j].heads[q].pos, S.flows[j].heads[q].status>>]
+L2cS == [][L2cStep]_vars
+
+(* ------------------------------------------------------------------ C10 at specification level *)
+(* no recursion budget of the specification is ever exhausted (the code has none: it would not return), and the
+   number of internal events processed per call is linear in program size x live instances (Isolation!StepBound) *)
+NoFuelOut == ~S.fuelout
+TotalElements == LET RECURSIVE Sum(_) Sum(i) == IF i > Len(MCP.flows) THEN 0 ELSE MCP.flows[i].n + Sum(i + 1) IN Sum(1)
+LiveInstances(T) == Cardinality({k \in 1..Len(T.flows) : Listening(T.flows[k])})
+EventBound == [][S'.nev <= 40 + 6 * TotalElements + 4 * TotalElements * (LiveInstances(S) + LiveInstances(S'))]_vars
 =============================================================================
